@@ -151,7 +151,7 @@ fn build_compare_op(
                 const _: () = {
                     #[allow(clippy::double_parens)]
                     #[allow(unused_parens)]
-                    fn _f #impl_g (__this: &#this_ty) #wheres {
+                    fn __check #impl_g (__this: &#this_ty) #wheres {
                         #body
                     }
                 };
@@ -1139,8 +1139,8 @@ fn build_to_index_fn(variants: &[VariantEntry]) -> TokenStream {
 
 fn build_eq_checker(this: TokenStream) -> TokenStream {
     quote_spanned!(this.span()=>{
-        fn _eq<T: ::core::cmp::Eq + ?::core::marker::Sized>(__this: &T) { }
-        _eq(&(#this))
+        fn __assert_eq<__T: ::core::cmp::Eq + ?::core::marker::Sized>(__this: &__T) { }
+        __assert_eq(&(#this))
     })
 }
 
